@@ -79,6 +79,58 @@ def run(p):
                 res.append({"value": float(loss), "grad": float(g) if g is not None else 0.0,
                             "bl_requires_grad": bool(getattr(blv, "requires_grad", False))})
             out["steps"] = res
+        elif case in ("pomo", "symnco"):
+            A = 2 if case == "symnco" else 1
+            N = B * S * A
+            rr = _vec(vals, "r", (N,), eps, False)
+            lls = _vec(vals, "ll", (N,), eps)
+            if case == "pomo":
+                from rl4co.models.zoo.pomo.model import POMO
+
+                env = types.SimpleNamespace(reset=lambda b: b, get_num_starts=lambda td: S, name="tsp")
+                model = mk(POMO, env=env, policy=lambda td, env, phase=None, num_starts=None, **k: {"reward": rr, "log_likelihood": lls},
+                           num_starts=S, num_augment=8, augment=None, baseline=bl.SharedBaseline(), advantage_scaler=RewardScaler(None))
+            else:
+                from rl4co.models.zoo.symnco import model as sym
+
+                inv = _v(vals, "inv_loss") + eps * _v(vals, "dinv")
+                sym.invariance_loss = lambda pe, n: inv
+                env = types.SimpleNamespace(reset=lambda b: b, name="tsp")
+                model = mk(sym.SymNCO, env=env, policy=lambda td, env, phase=None, num_starts=None, **k: {"reward": rr, "log_likelihood": lls, "proj_embeddings": None},
+                           num_starts=S, num_augment=A, augment=lambda td: td, alpha=0.2, beta=1.0)
+            res = model.shared_step(TensorDict({}, batch_size=[B]), 0, "train")
+            loss = res["loss"]
+            g = torch.autograd.grad(loss, eps, allow_unused=True)[0]
+            out["steps"] = [{"value": float(loss), "grad": float(g) if g is not None else 0.0, "bl_requires_grad": False}]
+        elif case == "ppo":
+            from rl4co.data.dataset import TensorDictDataset
+            from rl4co.models.rl.ppo.ppo import PPO
+
+            Tn = 2
+            old_ll = _vec(vals, "oldll", (B,), eps, False)
+            rew = _vec(vals, "r", (B,), eps, False)
+            new_ll = _vec(vals, "ll", (B, Tn), eps)
+            ent = _vec(vals, "ent", (B,), eps)
+            val = _vec(vals, "v", (B, 1), eps)
+            acts = torch.zeros(B, Tn, dtype=torch.int64)
+            tag = torch.arange(B, dtype=torch.float64)
+
+            def policy(td, env=None, phase=None, actions=None, **k):
+                if actions is None:
+                    return {"actions": acts, "log_likelihood": old_ll, "reward": rew}
+                idx = td["x"].long()  # the loader shuffles: answer per instance
+                return {"log_likelihood": new_ll[idx], "entropy": ent[idx], "reward": rew[idx]}
+
+            captured = []
+            env = types.SimpleNamespace(reset=lambda b: b, dataset_cls=TensorDictDataset, name="tsp")
+            cfg = {"clip_range": 0.2, "ppo_epochs": 1, "mini_batch_size": B, "vf_lambda": 0.5, "entropy_lambda": 0.01, "normalize_adv": False, "max_grad_norm": None}
+            opt = types.SimpleNamespace(zero_grad=lambda: None, step=lambda: None)
+            model = mk(PPO, env=env, policy=policy, critic=lambda td: val[td["x"].long()], ppo_cfg=cfg, optimizers=lambda: opt,
+                       manual_backward=lambda loss: captured.append(loss), clip_gradients=lambda *a, **k: None)
+            model.shared_step(TensorDict({"x": tag}, batch_size=[B]), 0, "train")
+            loss = captured[-1]
+            g = torch.autograd.grad(loss, eps, allow_unused=True)[0]
+            out["steps"] = [{"value": float(loss), "grad": float(g) if g is not None else 0.0, "bl_requires_grad": False}]
         else:
             out["unsupported"] = case
         return out
